@@ -157,16 +157,6 @@ class RetractionState(CommonMixin):
                 cmd += " " + params
 
             returnCommands.append(cmd)
-        elif (not position.E_AXIS.absoluteMode):
-            # Relative extruder positioning: the E value of the command is an offset, so the
-            # extruder position doesn't need to be (and must not be) expressed as a coordinate
-            eAxis = position.E_AXIS
-            returnCommands.append(
-                "G1 F{f} E{e}".format(
-                    e=formatNumber(-self.extrusionAmount * direction / eAxis.unitMultiplier),
-                    f=formatNumber(self.feedRate / eAxis.unitMultiplier)
-                )
-            )
         else:
             amount = self.extrusionAmount * direction
             eAxis = position.E_AXIS
@@ -179,10 +169,18 @@ class RetractionState(CommonMixin):
 
             eAxis.current -= amount
 
+            if (eAxis.absoluteMode):
+                target = eAxis.nativeToLogical()
+            else:
+                # Relative extruder positioning: the E value of the command is an offset.  Together
+                # with the G92 above, the extruder coordinate ends up at the same value as in
+                # absolute mode, so it stays in sync when the file switches back to absolute mode
+                target = -amount / eAxis.unitMultiplier
+
             # Use "G1" over "G0", since an extrusion amount is being supplied
             returnCommands.append(
                 "G1 F{f} E{e}".format(
-                    e=formatNumber(eAxis.nativeToLogical()),
+                    e=formatNumber(target),
                     f=formatNumber(self.feedRate / eAxis.unitMultiplier)
                 )
             )
